@@ -21,6 +21,9 @@ def extra(led, tier, seed):
     from contracts import sparse_sel
     led.extend(o for o in sparse_sel.update_weights_flow() if "optimiser update" in o.name or "two paths" in o.name)
     led.extend(forwarding.update_step_obligations())
+    # B: real fits at larger / awkward sizes take exactly max_iter * ceil(n / batch_size) optimiser steps (counted at the optimiser)
+    from contracts import rt_obligations
+    led.extend(rt_obligations.ladder_obligations(seed, tier))
     led.assume("A2", "A4", "A8",
                "random_state.permutation(n) returns a permutation of 0..n-1 (contract on NumPy)",
                "NumPy indexing axioms: X[idx][a] = X[idx[a]], (A[r][:, c])[a,b] = A[r[a], c[b]], arange(n)[part] = part",
